@@ -773,6 +773,88 @@ fn persister_battery(a: &mut Vec<i128>) -> String {
 	format!("{} {}", bad, total)
 }
 
+/// payment_outcome_probe <scenario>: three live nodes in a line (0 - 1 - 2), one payment from 0 to 2. The test utilities
+/// used to drive the payment assert the exact events the payer produces at every step (a missing or additional
+/// PaymentSent / PaymentFailed / PaymentPathFailed panics), and afterwards no event may be left over.
+///   1 the recipient claims; 2 the recipient fails it (no retries); 3 a second send under the same payment id while the
+///   first is pending must be refused, then the first is claimed; 4 the payer abandons the payment while its HTLC is in
+///   flight - no event yet - and the recipient then claims it anyway: reported sent, never failed;
+///   5 two payments in turn, the first failed, the second claimed.
+/// Output: `1` if everything was as it must be, `0 <what>` otherwise.
+fn payment_outcome_probe(a: &mut Vec<i128>) -> String {
+	use lightning::ln::channelmanager::PaymentId;
+	use lightning::ln::outbound_payment::RecipientOnionFields;
+	let scenario = a[0];
+	let chanmon_cfgs = create_chanmon_cfgs(3);
+	let node_cfgs = create_node_cfgs(3, &chanmon_cfgs);
+	let node_chanmgrs = create_node_chanmgrs(3, &node_cfgs, &[None, None, None]);
+	let nodes = create_network(3, &node_cfgs, &node_chanmgrs);
+	create_announced_chan_between_nodes(&nodes, 0, 1);
+	create_announced_chan_between_nodes(&nodes, 1, 2);
+	let path = [&nodes[1], &nodes[2]];
+	let mut verdict = String::from("1");
+	match scenario {
+		1 => {
+			send_payment(&nodes[0], &path, 1_000_000);
+		},
+		2 => {
+			let (_, hash, _, _) = route_payment(&nodes[0], &path, 1_000_000);
+			fail_payment(&nodes[0], &path, hash);
+		},
+		3 => {
+			let (route, hash, preimage, secret) = lightning::get_route_and_payment_hash!(nodes[0], nodes[2], 1_000_000);
+			let id = PaymentId(hash.0);
+			nodes[0].node.send_payment_with_route(route.clone(), hash, RecipientOnionFields::secret_only(secret, 1_000_000), id).unwrap();
+			check_added_monitors(&nodes[0], 1);
+			if nodes[0].node.send_payment_with_route(route.clone(), hash, RecipientOnionFields::secret_only(secret, 1_000_000), id).is_ok() {
+				verdict = String::from("0 duplicate payment id accepted");
+			}
+			let mut events = nodes[0].node.get_and_clear_pending_msg_events();
+			let ev = remove_first_msg_event_to_node(&nodes[1].node.get_our_node_id(), &mut events);
+			pass_along_path(&nodes[0], &path, 1_000_000, hash, Some(secret), ev, true, None);
+			claim_payment(&nodes[0], &path, preimage);
+		},
+		4 => {
+			let (preimage, _hash, _, id) = route_payment(&nodes[0], &path, 1_000_000);
+			nodes[0].node.abandon_payment(id);
+			if !nodes[0].node.get_and_clear_pending_events().is_empty() {
+				verdict = String::from("0 terminal event while an HTLC was in flight");
+			}
+			claim_payment(&nodes[0], &path, preimage);
+		},
+		_ => {
+			let (_, hash, _, _) = route_payment(&nodes[0], &path, 1_000_000);
+			fail_payment(&nodes[0], &path, hash);
+			send_payment(&nodes[0], &path, 2_000_000);
+		},
+	}
+	if !nodes[0].node.get_and_clear_pending_events().is_empty() && verdict == "1" {
+		verdict = String::from("0 events left over at the payer");
+	}
+	if !nodes[0].node.list_recent_payments().iter().all(|p| !matches!(p, lightning::ln::channelmanager::RecentPaymentDetails::Pending { .. })) && verdict == "1" {
+		verdict = String::from("0 a resolved payment is still listed as pending");
+	}
+	for n in nodes.iter() {
+		n.node.get_and_clear_pending_msg_events();
+		n.node.get_and_clear_pending_events();
+	}
+	core::mem::forget(nodes);
+	verdict
+}
+
+/// payment_outcome_battery: scenarios 1-5 of payment_outcome_probe. Output: `<scenarios that failed or panicked> <scenarios run>`.
+fn payment_outcome_battery(_a: &mut Vec<i128>) -> String {
+	let (mut bad, mut total) = (0u32, 0u32);
+	for sc in 1i128..=5 {
+		total += 1;
+		match catch_unwind(AssertUnwindSafe(|| payment_outcome_probe(&mut vec![sc]))) {
+			Ok(v) if v == "1" => {},
+			_ => bad += 1,
+		}
+	}
+	format!("{} {}", bad, total)
+}
+
 fn main() {
 	if std::env::var("ORACLE_DEBUG").is_err() { std::panic::set_hook(Box::new(|_| {})); }
 	let stdin = std::io::stdin();
@@ -789,6 +871,8 @@ fn main() {
 		let r = catch_unwind(AssertUnwindSafe(|| match name.as_str() {
 			"forward_probe" => forward_probe(&mut args),
 			"persister_probe" => persister_probe(&mut args),
+			"payment_outcome_probe" => payment_outcome_probe(&mut args),
+			"payment_outcome_battery" => payment_outcome_battery(&mut args),
 			"persister_battery" => persister_battery(&mut args),
 			"closing_probe" => closing_probe(&mut args),
 			"prune_probe" => prune_probe(&mut args),
